@@ -57,6 +57,12 @@ def objective_value(spec, o, P):
         return None if (v is None or isinstance(v, tuple)) else v
     if k in ("MaximizeMaxBufferLevel", "MinimizeMaxBufferLevel"):
         return rs.indicator_value(spec, {"kind": "MaxBufferLevel", "buffer": o["buffer"]}, P)
+    if k == "FlowtimeSingleResource":
+        lo, hi = o.get("interval") or (0, P["horizon"])
+        inside = [(s, e) for _t, s, e in P["busy"].get(o["resource"], []) if s >= lo and e <= hi]
+        if not inside:
+            return None
+        return max(e for _s, e in inside) - min(s for s, _e in inside)
     return None
 
 
@@ -267,6 +273,13 @@ def specs(tier):
     for okind in ("Makespan", "Flowtime", "Priorities", "StartEarliest", "StartLatest", "GreatestStart"):
         out.append((okind, fam.base(6, t3(), workers=W, requirements=on, constraints=away,
                                     objectives=[{"kind": okind}])))
+    out.append(("FlowtimeSingleResource", fam.base(7, t3(), workers=W, requirements=on, constraints=[
+        {"id": "a", "kind": "TaskStartAfter", "task": "t2", "value": 2, "mode": "lax"}],
+        objectives=[{"kind": "FlowtimeSingleResource", "resource": "w0"}])))
+    out.append(("FlowtimeSingleResource.interval", fam.base(8, t3(), workers=W, requirements=on, constraints=[
+        {"id": "a", "kind": "TaskStartAfter", "task": "t2", "value": 2, "mode": "lax"},
+        {"id": "b", "kind": "TaskEndBefore", "task": "t1", "value": 7, "mode": "lax"}],
+        objectives=[{"kind": "FlowtimeSingleResource", "resource": "w0", "interval": [1, 7]}])))
     out.append(("Makespan.nohorizon", dict(fam.base(6, t3(), workers=W, requirements=on, constraints=away,
                                                     objectives=[{"kind": "Makespan"}]), problem={"name": "P"})))
     out.append(("ResourceUtilization", fam.base(5, [fam.vr("t0", 1, 3), fam.fx("t1", 1)], workers=W,
@@ -296,6 +309,13 @@ def specs(tier):
                                                           indicators=[{"id": "i", "kind": "FromExpr", "name": ename,
                                                                        "expr": e}],
                                                           objectives=[{"kind": okind, "indicator": "i", "weight": 1}])))
+    # bounded user indicators: bounds equal to the true range, first model sitting on either bound
+    for ename, e in (("start_t1", ["start", "t1"]), ("rev_start_t1", ["-", 6, ["start", "t1"]])):
+        for okind in ("MinimizeIndicator", "MaximizeIndicator"):
+            out.append((f"bounded.{ename}.{okind}", fam.base(7, [fam.fx("t0", 2), fam.vr("t1", 1, 3)],
+                                                             indicators=[{"id": "i", "kind": "FromExpr", "name": ename,
+                                                                          "expr": e, "bounds": [0, 6]}],
+                                                             objectives=[{"kind": okind, "indicator": "i", "weight": 1}])))
     # tardiness with non-deadline due dates
     out.append(("user.tardiness", fam.base(7, [fam.fx("t0", 3, due_date=3, due_date_is_deadline=False),
                                                fam.fx("t1", 2, due_date=2, due_date_is_deadline=False)], workers=W,
